@@ -1,8 +1,10 @@
 package core
 
 import (
+	"context"
 	"encoding/json"
 	"fmt"
+	"sync/atomic"
 	"testing"
 	"time"
 
@@ -234,6 +236,155 @@ func TestC02SendWindow(t *testing.T) {
 		}
 		vt.Journal("C02", c)
 		if fails := runC02Window(c, protos); len(fails) > 0 {
+			t.Fatalf("C02 violated (%d findings), first: %s\ncase: %+v", len(fails), fails[0], c)
+		}
+	})
+}
+
+// C02, the write queue: senders queue for the session's write lock; one of them may give up
+// (its context is cancelled) while it waits behind a stalled write. That sender's call fails,
+// everybody else's call still completes.
+
+type c02QueueCase struct {
+	Proto   string
+	Waiters []string // kinds of the senders queued behind the stalled write: call | push, each with a context that is cancelled while it waits
+	After   int      // ordinary calls issued after the stall is over
+}
+
+func runC02Queue(c c02QueueCase, protos []vt.NamedProto) []string {
+	vt.Init()
+	newLib()
+	w := vt.NewWorld()
+	defer w.Close()
+	cli := w.Peer(erpc.PeerConfig{})
+	proto := protoByName(protos, c.Proto)
+	pair := vt.NewPair()
+	sess, stat := cli.ServeConn(pair.A, proto.Fn)
+	if !stat.OK() {
+		return []string{"ServeConn: " + stat.String()}
+	}
+	raw := vt.NewRawPeer(pair, pair.B, proto.Fn)
+	defer raw.Close()
+	var fails []string
+	failf := func(format string, a ...interface{}) { fails = append(fails, fmt.Sprintf(format, a...)) }
+	pack := func(m vt.Msg) []byte {
+		wrw := &vt.RW{}
+		if err := proto.Fn(wrw).Pack(m.Build()); err != nil {
+			panic("harness pack: " + err.Error())
+		}
+		return wrw.Written()
+	}
+	// the remote answers every CALL frame it sees
+	stopAnswering := make(chan struct{})
+	defer close(stopAnswering)
+	go func() {
+		answered := 0
+		for {
+			select {
+			case <-stopAnswering:
+				return
+			default:
+			}
+			fr := raw.Frames()
+			for ; answered < len(fr); answered++ {
+				if f := fr[answered]; f.Mtype == erpc.TypeCall {
+					raw.SendBytes(pack(vt.Msg{Seq: f.Seq, Mtype: erpc.TypeReply, Codec: 'j', Body: []byte(`{"Rid":"r","Val":"reply"}`)}))
+				}
+			}
+			time.Sleep(100 * time.Microsecond)
+		}
+	}()
+	// stall the first write
+	stalled, open := make(chan struct{}), make(chan struct{})
+	var first int32 = 1
+	pair.SetGate(vt.AtoB, func(b []byte) {
+		if atomic.CompareAndSwapInt32(&first, 1, 0) {
+			close(stalled)
+			<-open
+		}
+	})
+	headCmd := make(chan erpc.CallCmd, 1)
+	go func() { headCmd <- sess.Call("/lib_do", &LibArg{Rid: "head"}, new(LibRes)) }()
+	if !vt.WaitClosed(stalled) {
+		close(open)
+		return []string{vt.Hang("the first write reaching the transport")}
+	}
+	type waiter struct {
+		kind   string
+		cancel context.CancelFunc
+		done   chan *erpc.Status
+	}
+	var ws []*waiter
+	for i, k := range c.Waiters {
+		ctx, cancel := context.WithCancel(context.Background())
+		wt := &waiter{kind: k, cancel: cancel, done: make(chan *erpc.Status, 1)}
+		ws = append(ws, wt)
+		go func(i int) {
+			if wt.kind == "push" {
+				wt.done <- sess.Push("/lib_note", &LibArg{Rid: fmt.Sprintf("qp%d", i)}, erpc.WithContext(ctx))
+			} else {
+				wt.done <- sess.Call("/lib_do", &LibArg{Rid: fmt.Sprintf("qc%d", i)}, new(LibRes), erpc.WithContext(ctx)).Status()
+			}
+		}(i)
+	}
+	time.Sleep(2 * time.Millisecond) // the waiters are queued behind the stalled write now
+	for _, wt := range ws {
+		wt.cancel()
+	}
+	time.Sleep(200 * time.Microsecond)
+	close(open)
+	select {
+	case cmd := <-headCmd:
+		if !cmd.StatusOK() {
+			failf("the call whose write was stalled for a while failed: %v", cmd.Status())
+		}
+	case <-time.After(vt.LivenessBound):
+		return []string{vt.Hang("completion of the call whose write was stalled")}
+	}
+	for i, wt := range ws {
+		select {
+		case st := <-wt.done:
+			_ = st // failed (context cancelled) or sent: both fine
+		case <-time.After(vt.LivenessBound):
+			return []string{vt.Hang(fmt.Sprintf("return of queued %s %d whose context was cancelled while it waited for the write lock", wt.kind, i))}
+		}
+	}
+	for i := 0; i < c.After; i++ {
+		var cmd erpc.CallCmd
+		if !vt.Returns(func() {
+			cmd = sess.AsyncCall("/lib_do", &LibArg{Rid: fmt.Sprintf("after%d", i)}, new(LibRes), make(chan erpc.CallCmd, 1))
+		}) {
+			return []string{vt.Hang("return of AsyncCall after a queued sender gave up (the remote is answering)")}
+		}
+		if !vt.WaitClosed(cmd.Done()) {
+			return []string{vt.Hang("completion of a call issued after a queued sender gave up (the remote is answering)")}
+		}
+		if !cmd.StatusOK() {
+			failf("a call issued after a queued sender gave up failed although the remote answers: %v", cmd.Status())
+		}
+	}
+	closed := make(chan struct{})
+	go func() { sess.Close(); close(closed) }()
+	if !vt.WaitClosed(closed) {
+		failf("%s", vt.Hang("return of Session.Close"))
+	}
+	return fails
+}
+
+func TestC02WriteQueue(t *testing.T) {
+	rec := vt.NewRec(t, "C02", "writequeue", "a client session over a transport whose first write is stalled by the harness; 1-3 further senders (Call / Push, each with its own context) queue for the write lock behind it and their contexts are cancelled while they wait; the stall ends, the remote answers every CALL it receives; then 1-3 ordinary calls are issued; oracle: the stalled call completes OK, every queued sender returns, every later AsyncCall returns and completes OK (20 s bound + goroutine dump), Close returns; every case non-trivial; distinct by case")
+	protos := vt.StreamProtos()
+	rapid.Check(t, func(t *rapid.T) {
+		c := c02QueueCase{
+			Proto:   rapid.SampledFrom(protos).Draw(t, "proto").Name,
+			Waiters: rapid.SliceOfN(rapid.SampledFrom([]string{"call", "call", "push"}), 1, 3).Draw(t, "waiters"),
+			After:   rapid.IntRange(1, 3).Draw(t, "after"),
+		}
+		rec.Case(fmt.Sprintf("%+v", c), true, "proto="+c.Proto)
+		if rec.WantSample() {
+			rec.Sample(c)
+		}
+		if fails := runC02Queue(c, protos); len(fails) > 0 {
 			t.Fatalf("C02 violated (%d findings), first: %s\ncase: %+v", len(fails), fails[0], c)
 		}
 	})
